@@ -338,10 +338,16 @@ def r12_4(rep: Report) -> None:
             if suffix is not None and L0:
                 why = f'the suffix `{norm(suffix)}` is not the number of the pass being listed'
                 # (A) a counter that starts at L0 and is incremented exactly when the index wraps to 0
-                if isinstance(suffix, ast.Name) and suffix.id == L0:
+                # (the counter is L0 itself or a local that is set to L0 once, before the loop)
+                cnt_name = None
+                if isinstance(suffix, ast.Name):
+                    sd = single_def(suffix.id)
+                    if suffix.id == L0 or (isinstance(sd, ast.Name) and sd.id == L0):
+                        cnt_name = suffix.id
+                if cnt_name is not None:
                     for n in ast.walk(loop):
                         if isinstance(n, ast.If) and any(i in norm(n.test) for i in idx_names) and any(
-                                isinstance(x, ast.AugAssign) and norm(x.target) == L0 and isinstance(x.op, ast.Add)
+                                isinstance(x, ast.AugAssign) and norm(x.target) == cnt_name and isinstance(x.op, ast.Add)
                                 and norm(x.value) == '1' for x in n.body):
                             unique = True
                 # (B) L0 + q with (q, idx) = divmod(count, len(periods)) and count += 1 per iteration
